@@ -1,6 +1,7 @@
 """C03 write permission: theorems in coq/Props/PropC03.v; correspondence and monitor through the C03
 driver (harness/overlay/server/zz_verif_c03x_test.go = the topic-history driver plus topic deletion in
-two halves, user suspension, me/fnd/sys) and the extracted model coq/Sys/TopicLife.v over Sys/Topic.v."""
+two halves, user suspension, me/fnd/sys with subscribers, real peer-to-peer topics) and the extracted model
+coq/Sys/TopicLife.v over Sys/Topic.v."""
 import os
 import re
 import subprocess
@@ -9,9 +10,14 @@ from props import statelib
 from props import topiclib as T
 from props.statelib import kvs, eff
 
-PUB_KINDS = ("pub", "pubme", "pubfnd", "pubsys")
+PUB_KINDS = ("pub", "pubme", "pubfnd", "pubsys", "p2ppub")
 # known findings (KNOWN_FINDINGS.txt, findings/C03.md): reported through ctx.violation with these keys
-KNOWN = ("stale-cache-offline-setsub", "stale-cache-transfer-fault", "suspended-owner-accepted-after-reload")
+KNOWN = ("stale-cache-offline-setsub", "stale-cache-transfer-fault", "suspended-owner-accepted-after-reload",
+         "suspended-party-accepted-after-reload", "suspended-party-accepted-after-peer-resumed")
+
+# modes of the subscription rows of peer-to-peer topics (store.Topics.CreateP2P masks with ModeCP2P = JRWPA)
+P2P_W_MODES = [31, 31, 31, 23, 29]     # JRWPA, JRWA, JWPA
+P2P_NOW_MODES = [27, 19, 11]           # JRPA, JRA, JRP
 
 W_MODES = ["JRWPS", "JRWPAS", "JRWP", "JRW", "JW", "JRWPASD", "JRWPSD"]
 NOW_MODES = ["JRPS", "JRPAS", "JRP", "JR", "JP", "JRPASD", "N", "JPS"]
@@ -148,8 +154,52 @@ def gen_permfault(rng, sc, nops):
     return sc
 
 
+def p2p_rows(sc):
+    """k -> (a, b, {a: (want, given), b: (want, given)}) from the head lines of a scenario"""
+    res = {}
+    for h in sc.head:
+        w = h.split()
+        if w and w[0] == "p2prow":
+            d = kvs(h)
+            a, b = int(w[2]), int(w[3])
+            res[int(w[1])] = (a, b, {a: (letters(int(d["wa"])), letters(int(d["ga"]))), b: (letters(int(d["wb"])), letters(int(d["gb"])))})
+    return res
+
+
+def gen_population(rng, sc):
+    """The accounts that get suspended are, at once, a plain member of the group topic, a party of peer-to-peer
+    topics and a subscriber of 'sys'; other accounts are the owner, parties of other p2p topics, subscribers of
+    'sys' that are never suspended, or nothing at all."""
+    users = list(range(1, sc.nusers + 1))
+    v = rng.choice(users[1:])                      # the main candidate: not the owner
+    head = [h for h in sc.head if not h.startswith("sess ")]
+    sess = [h for h in sc.head if h.startswith("sess ")]
+    if not any(h.startswith("subrow %d " % v) for h in head) and rng.random() < 0.8:
+        head.append("subrow %d want=%d given=%d" % (v, rng.choice([47, 47, 63, 43]), rng.choice([47, 47, 63, 43])))
+    for u in users:
+        if (u == v and rng.random() < 0.7) or (u != v and rng.random() < 0.2):
+            head.append("sysrow %d" % u)
+
+    def mode():
+        return rng.choice(P2P_W_MODES * 3 + P2P_NOW_MODES)
+    pairs = []
+    w = rng.choice([u for u in users if u != v])
+    pairs.append((min(v, w), max(v, w)))
+    if sc.nusers >= 3 and rng.random() < 0.7:
+        # a second topic: the owner with somebody, or two accounts other than v
+        a = rng.choice(users)
+        b = rng.choice([u for u in users if u != a])
+        if (min(a, b), max(a, b)) not in pairs:
+            pairs.append((min(a, b), max(a, b)))
+    for k, (a, b) in enumerate(pairs):
+        head.append("p2prow %d %d %d wa=%d ga=%d wb=%d gb=%d" % (k + 1, a, b, mode(), mode(), mode(), mode()))
+    sc.head = head + sess
+    return v, pairs
+
+
 def gen_life(rng, sc, nops):
-    """Topic states in which nobody may publish (delete in flight, owner suspended), other topic kinds."""
+    """Topic states in which nobody may publish (delete in flight, owner / party suspended), every topic kind."""
+    v, pairs = gen_population(rng, sc)
     sids = sorted(sc.sessions)
     users = list(range(1, sc.nusers + 1))
     owner_s = sessions_of(sc, 1)
@@ -157,15 +207,51 @@ def gen_life(rng, sc, nops):
     resub(rng, sc, ops, 0.85)
     cnt = [200]
 
+    def party_sessions(k):
+        a, b = pairs[k - 1]
+        return sessions_of(sc, a) + sessions_of(sc, b)
+
+    def p2psubs(p=0.8):
+        for k in range(1, len(pairs) + 1):
+            for s in party_sessions(k):
+                if rng.random() < p:
+                    ops.append(("N", "p2psub", [s, k]))
+
     def pubs(n, fault_p=0.0):
         for _ in range(n):
             cnt[0] += 1
             ops.append((rand_fault(rng, fault_p), "pub", [rng.choice(sids), cnt[0], 1 if rng.random() < 0.15 else 0]))
 
+    def p2ppubs(n, fault_p=0.0):
+        for _ in range(n):
+            cnt[0] += 1
+            k = rng.randint(1, len(pairs))
+            s = rng.choice(party_sessions(k) * 4 + sids)
+            ops.append((rand_fault(rng, fault_p, ks=(1, 2, 2, 3)), "p2ppub", [s, k, cnt[0], 1 if rng.random() < 0.15 else 0]))
+            if ops[-1][0][0] == "C":
+                resub(rng, sc, ops, 0.8)
+                p2psubs(0.8)
+
+    def syspubs(n, fault_p=0.0):
+        for _ in range(n):
+            cnt[0] += 1
+            ops.append((rand_fault(rng, fault_p, ks=(1, 2, 2, 3)), "pubsys", [rng.choice(sids), cnt[0]]))
+            if ops[-1][0][0] == "C":
+                resub(rng, sc, ops, 0.8)
+                p2psubs(0.8)
+
+    def everywhere():
+        # the same moment seen from every topic kind
+        pubs(rng.randint(1, 2), 0.1)
+        p2ppubs(rng.randint(1, 3), 0.05)
+        syspubs(rng.randint(1, 2), 0.05)
+
+    p2psubs(0.85)
     pubs(rng.randint(0, 2))
+    p2ppubs(rng.randint(0, 2))
     for _ in range(nops):
         r = rng.random()
-        if r < 0.30:
+        if r < 0.22:
             # the owner deletes the topic; publishes while the hub is inside store.Topics.Delete
             ops.append((rng.choice(["N", "N", "N", "F1", "F1", "C1", "F2"]), "delbegin", [rng.choice(owner_s if rng.random() < 0.9 else sids)]))
             for _ in range(rng.randint(1, 3)):
@@ -176,23 +262,47 @@ def gen_life(rng, sc, nops):
             pubs(rng.randint(1, 2))
             if rng.random() < 0.5:
                 resub(rng, sc, ops, 0.7)
+                p2psubs(0.5)
                 pubs(1)
-        elif r < 0.60:
-            u = 1 if rng.random() < 0.7 else rng.choice(users)
-            ops.append((rand_fault(rng, 0.3, ks=(1, 2, 2, 3)), "suspend", [u, 1 if rng.random() < 0.75 else 0]))
+        elif r < 0.66:
+            # suspension of the owner / of the member-party-subscriber / of anybody
+            t0 = rng.random()
+            u = 1 if t0 < 0.35 else (v if t0 < 0.75 else rng.choice(users))
+            ops.append((rand_fault(rng, 0.25, ks=(1, 2, 2, 3)), "suspend", [u, 1 if rng.random() < 0.8 else 0]))
             if ops[-1][0][0] == "C":
                 resub(rng, sc, ops, 0.9)
-            pubs(rng.randint(1, 3), 0.1)
+                p2psubs(0.9)
+            everywhere()
             t = rng.random()
             if t < 0.3:
                 ops.append((rand_fault(rng, 0.2, ks=(1, 2)), "suspend", [u, 0]))
-                pubs(rng.randint(1, 2))
-            elif t < 0.55:
-                # the read-only bit does not survive a reload (known finding)
-                ops.append(("N", "restart", []) if rng.random() < 0.7 else ("N", "unload", []))
+                if ops[-1][0][0] == "C":
+                    resub(rng, sc, ops, 0.9)
+                    p2psubs(0.9)
+                everywhere()
+            elif t < 0.5:
+                # the read-only bit does not survive a reload (known findings)
+                if rng.random() < 0.6:
+                    ops.append(("N", "restart", []))
+                else:
+                    ops.append(("N", "unload", []))
+                    k = rng.randint(1, len(pairs))
+                    for s in party_sessions(k):
+                        ops.append(("N", "p2pleave", [s, k]))
+                    ops.append(("N", "p2punload", [k]))
                 resub(rng, sc, ops, 0.9)
-                pubs(rng.randint(1, 2))
-            elif t < 0.75:
+                p2psubs(0.9)
+                everywhere()
+            elif t < 0.7:
+                # both parties suspended, one resumed (known finding: the topic becomes writable)
+                k = rng.randint(1, len(pairs))
+                a, b = pairs[k - 1]
+                ops.append(("N", "suspend", [a, 1]))
+                ops.append(("N", "suspend", [b, 1]))
+                p2ppubs(1)
+                ops.append(("N", "suspend", [rng.choice([a, b]), 0]))
+                everywhere()
+            elif t < 0.85:
                 s = rng.choice(sids)
                 ops.append(("N", "setsub", [s, rng.choice(users), hx(rng.choice(W_MODES + NOW_MODES))]))
                 ops.append(("N", "note", [rng.choice(sids), "kp", 0]))
@@ -206,23 +316,31 @@ def gen_life(rng, sc, nops):
                     which = rng.choice(["me", "fnd"])
                     ops.append(("N", "sub" + which, [s]))
                     ops.append(("N", "pub" + which, [s, cnt[0]]))      # attached: refused for want of W (ModeCSelf)
-                elif k < 0.5:
+                elif k < 0.45:
                     ops.append(("N", rng.choice(["pubme", "pubfnd"]), [s, cnt[0]]))
+                elif k < 0.7:
+                    syspubs(1, 0.3)
                 else:
-                    ops.append((rand_fault(rng, 0.3, ks=(1, 2, 2, 3)), "pubsys", [s, cnt[0]]))
-                    if ops[-1][0][0] == "C":
-                        resub(rng, sc, ops, 0.8)
+                    p2ppubs(1, 0.3)
         else:
             k = rng.random()
-            if k < 0.4:
+            if k < 0.3:
                 ops.append(("N", "setsub", [rng.choice(sids), rng.choice([0] + users), hx(rng.choice(W_MODES + NOW_MODES))]))
-            elif k < 0.6:
+            elif k < 0.45:
                 ops.append(("N", "leave", [rng.choice(sids), 0]))
-            elif k < 0.8:
+            elif k < 0.6:
                 ops.append(("N", "sub", [rng.choice(sids), "-", 0]))
+            elif k < 0.8:
+                kk = rng.randint(1, len(pairs))
+                ops.append(("N", rng.choice(["p2pleave", "p2psub", "p2psub"]), [rng.choice(party_sessions(kk) * 3 + sids), kk]))
+                if rng.random() < 0.3:
+                    ops.append(("N", "p2punload", [kk]))
             else:
                 ops.append(("N", rng.choice(["unload", "restart"]), []))
+                if ops[-1][1] == "restart":
+                    p2psubs(0.6)
             pubs(1)
+            p2ppubs(1)
     sc.ops = ops
     return sc
 
@@ -285,6 +403,9 @@ class X:
         self.susp, self.me, self.fnd = set(), set(), set()
         self.sys_seqid = self.sys_lastid = 0
         self.sysmsgs = {}
+        self.sysro = False
+        self.syssubs, self.mefndro = set(), set()
+        self.p2p = {}       # k -> dict(loaded, ro, seqid, lastid, users {u: (want, given)}, sess set, msgs {seq: (from, content)})
         for l in v.b["store"]:
             w = l.split()
             if w[0] == "xstatus":
@@ -298,6 +419,25 @@ class X:
             elif w[0] == "sysmsg":
                 d = kvs(l)
                 self.sysmsgs[int(w[1])] = (int(d["from"]), d["content"])
+            elif w[0] == "sysro":
+                self.sysro = w[1] == "1"
+            elif w[0] == "syssubs":
+                self.syssubs = set(int(x) for x in (w[1].split(",") if len(w) > 1 else []) if x)
+            elif w[0] == "mefndro":
+                self.mefndro = set(x for x in (w[1].split(",") if len(w) > 1 else []) if x)
+            elif w[0] == "p2p":
+                d = kvs(l)
+                users = {}
+                if d["users"] not in ("-", ""):
+                    for e in d["users"].split(","):
+                        u, m = e.split(":")
+                        users[int(u)] = tuple(m.split("/"))
+                msgs = {}
+                for e in (d["msgs"].split(",") if d.get("msgs") else []):
+                    q, fr, c = e.split(":")
+                    msgs[int(q)] = (int(fr), c)
+                self.p2p[int(w[1])] = dict(loaded=d["loaded"] == "1", ro=d["ro"] == "1", seqid=int(d["seqid"]), lastid=int(d["lastid"]),
+                                           users=users, sess=set(int(x) for x in d.get("sess", "").split(",") if x), msgs=msgs)
 
 
 def modes(row):
@@ -313,13 +453,20 @@ def monitor(sc, views, known_hit=None):
     prev = px = None
     div = {}            # user -> name of the known stale-cache trigger that hit him since the topic was loaded
     ro_lost = False     # the owner is suspended and the topic was (re)loaded since: the read-only bit is gone (known finding)
+    rows = p2p_rows(sc)
+    p_lost = {}         # p2p topic -> why it is writable although a party is suspended ("reload" | "peer"): known findings
+    win_fault = "N"     # fault plan of the held {del topic}: a request other than {pub} to the group topic first lets it finish
     for k, v in enumerate(views):
         fault, kind, args = sc.ops[k]
         x = X(v)
-        sid = args[0] if args and kind != "suspend" else None
+        sid = args[0] if args and kind not in ("suspend", "p2punload") else None
         actor = sc.sessions.get(sid) if sid is not None else None
         mine = [t for s, t in v.frames if s == sid and t.startswith("ctrl ")] if sid is not None else []
         acked = bool(mine) and mine[0].startswith("ctrl 202")
+        if kind == "delbegin":
+            win_fault = fault
+        # the held delete finishes first, and its plan is a crash: the request is served by a restarted process
+        crashed_first = px is not None and px.window and kind not in ("pub", "delend") and win_fault[0] == "C"
 
         def known(law, detail):
             if known_hit is not None:
@@ -383,6 +530,36 @@ def monitor(sc, views, known_hit=None):
                 m = v.msgs.get(n)
                 if m is None or m["content"] != str(args[1]) or m["frm"] != actor:
                     res.append(("accepted-stored", k, "accepted message (%s) not stored as published: %s" % (mine[0], m)))
+        elif prev is not None and kind == "p2ppub" and args[1] in rows and args[1] in px.p2p and actor in rows[args[1]][2]:
+            # a publish to a peer-to-peer topic by one of its parties (for anybody else the name means another topic)
+            kk = args[1]
+            p, q = px.p2p[kk], x.p2p[kk]
+            want, given = rows[kk][2][actor]
+            if crashed_first:
+                p = dict(p, loaded=False, ro=False, sess=set(), users={}, lastid=p["seqid"])
+            attached = p["loaded"] and sid in p["sess"]
+            writer = "W" in eff(want, given)
+            expect = attached and writer and not p["ro"]
+            desc = "session %d (user %s) to p2p topic %d of users %s: attached=%s stored mode %s/%s cached mode %s read-only=%s suspended accounts %s" % (
+                sid, actor, kk, rows[kk][:2], attached, want, given, "/".join(p["users"].get(actor, ("-", "-"))), p["ro"], sorted(px.susp))
+            if acked and p["ro"]:
+                res.append(("publish-accepted-while-suspended", k, "publish accepted by a suspended (read-only) p2p topic; " + desc))
+            elif acked and not (attached and writer):
+                res.append(("publish-accepted-without-write", k, "publish accepted; " + desc))
+            elif expect and not acked and fault == "N":
+                res.append(("publish-by-writer-rejected", k, "publish by an attached writer answered %s; %s" % (mine, desc)))
+            if acked and p_lost.get(kk):
+                known("suspended-party-accepted-after-" + ("reload" if p_lost[kk] == "reload" else "peer-resumed"),
+                      "publish accepted although a party is suspended (%s); %s" % (
+                          "the topic was loaded after the suspension" if p_lost[kk] == "reload" else
+                          "the resumption of the other party cleared the read-only bit", desc))
+            if not acked:
+                rejected_clean("publish to a p2p topic")
+            elif fault == "N":
+                n = int(kvs(mine[0]).get("seq", "-1"))
+                if n != p["lastid"] + 1 or q["msgs"].get(n) != (actor, str(args[2])):
+                    res.append(("accepted-stored", k, "accepted message (%s) to p2p topic %d not stored as published with the next number: %s, previous lastID %d"
+                                % (mine[0], kk, q["msgs"].get(n), p["lastid"])))
         elif prev is not None and kind in ("pubme", "pubfnd"):
             if acked:
                 res.append(("publish-to-self-or-search-topic-accepted", k, "%s by session %d answered %s" % (kind, sid, mine[0])))
@@ -391,7 +568,7 @@ def monitor(sc, views, known_hit=None):
         elif prev is not None and kind == "pubsys":
             if acked:
                 n = int(kvs(mine[0]).get("seq", "-1"))
-                if n != px.sys_lastid + 1:
+                if n != (px.sys_seqid if crashed_first else px.sys_lastid) + 1:
                     res.append(("accepted-stored", k, "message to sys acknowledged as %d, previous was %d" % (n, px.sys_lastid)))
                 if fault == "N" and x.sysmsgs.get(n) != (actor, str(args[1])):
                     res.append(("accepted-stored", k, "message %d to sys not stored as published: %s" % (n, x.sysmsgs.get(n))))
@@ -400,16 +577,40 @@ def monitor(sc, views, known_hit=None):
                     res.append(("sys-publish-rejected", k, "publish to sys by logged-in session %d (not attached) answered %s" % (sid, mine)))
                 if not mine or int(mine[0].split()[1]) < 400:
                     res.append(("rejected-gets-error-reply", k, "rejected publish to sys answered %s" % mine))
-                if set(x.sysmsgs) != set(px.sysmsgs) or x.sys_lastid != px.sys_lastid and fault[0] != "C":
+                if set(x.sysmsgs) != set(px.sysmsgs) or x.sys_lastid != px.sys_lastid and fault[0] != "C" and not crashed_first:
                     res.append(("rejected-no-effect", k, "rejected publish to sys stored something or consumed a number"))
                 if [t for s, t in v.frames if not (s == sid and t.startswith("ctrl "))]:
                     res.append(("rejected-no-effect", k, "rejected publish to sys produced frames"))
-        # the read-only bit follows the suspension of the owner of a loaded topic
-        if prev is not None and kind == "suspend" and v.loaded and prev.loaded and fault[0] != "C":
-            u, b = int(args[0]), int(args[1]) == 1
-            if (u in x.susp) != (u in px.susp) and prev.cache.get("owner") == u and x.ro != b:
-                res.append(("read-only-follows-suspension", k, "owner %d %s, read-only bit of the loaded topic is %s" %
-                            (u, "suspended" if b else "resumed", x.ro)))
+        # the read-only bit of every loaded topic follows the suspensions, per topic category: an accepted change of
+        # the state of account u marks the group topic iff u is its owner (not if u is only a member), a p2p topic iff
+        # u is one of its parties, never 'sys' (whoever subscribes to it), never me/fnd; nothing else sets the bit
+        if prev is not None and fault[0] != "C" and kind != "restart":
+            law = "read-only-follows-suspension"
+            if kind == "suspend":
+                u, b = int(args[0]), int(args[1]) == 1
+                changed = (u in x.susp) != (u in px.susp)
+                what = "account %d %s" % (u, ("suspended" if b else "resumed") if changed else "state unchanged by the request")
+            else:
+                u, b, changed, what = None, False, False, "request %s" % kind
+            if v.loaded and prev.loaded and not px.window and not x.window:
+                owner = prev.cache.get("owner")
+                exp = b if (changed and owner == u) else px.ro
+                if x.ro != exp and (kind == "suspend" or x.ro):
+                    role = "owner" if owner == u else ("member" if u in prev.cusers else "no subscriber")
+                    res.append((law, k, "group topic: %s (%s of the topic), read-only bit is %s, expected %s" % (what, role, x.ro, exp)))
+            if x.sysro != px.sysro and (kind == "suspend" or x.sysro):
+                res.append((law, k, "'sys' topic: %s (%s), read-only bit of sys is %s, expected %s" % (
+                    what, "a subscriber of sys" if u in px.syssubs else "not a subscriber", x.sysro, px.sysro)))
+            if x.mefndro != px.mefndro and (kind == "suspend" or x.mefndro - px.mefndro):
+                res.append((law, k, "me/fnd topics: %s, read-only me/fnd topics %s, expected %s" % (what, sorted(x.mefndro), sorted(px.mefndro))))
+            for kk in sorted(x.p2p):
+                p, q = px.p2p.get(kk), x.p2p[kk]
+                if p is None or not (p["loaded"] and q["loaded"]):
+                    continue
+                exp = b if (changed and u in p["users"]) else p["ro"]
+                if q["ro"] != exp and (kind == "suspend" or q["ro"]):
+                    res.append((law, k, "p2p topic %d of users %s: %s (%s), read-only bit is %s, expected %s" % (
+                        kk, sorted(p["users"]), what, "a party" if u in p["users"] else "not a party", q["ro"], exp)))
         # bookkeeping of the known triggers
         if prev is not None:
             if not v.loaded or not prev.loaded:
@@ -431,12 +632,61 @@ def monitor(sc, views, known_hit=None):
                 ro_lost = False
             elif not prev.loaded:
                 ro_lost = True
+            for kk, q in x.p2p.items():
+                p = px.p2p.get(kk)
+                if not q["loaded"] or q["ro"] or not (set(q["users"]) & x.susp):
+                    p_lost[kk] = None
+                elif p is None or not p["loaded"]:
+                    p_lost[kk] = "reload"
+                elif kind == "suspend" and int(args[1]) == 0 and int(args[0]) in p["users"] and p["ro"] and int(args[0]) not in x.susp:
+                    p_lost[kk] = "peer"
         prev, px = v, x
     return res
 
 
 def frame_f(t):
     return True
+
+
+def extra_cov(scns, impl):
+    """how often the implementation's trace visited the cases of the suspension test (non-vacuity of the laws)"""
+    c = {"suspensions_changing_state": 0, "of_owner_of_loaded_group": 0, "of_plain_member_of_loaded_group": 0,
+         "of_party_of_loaded_p2p": 0, "of_non_party_with_loaded_p2p": 0, "of_sys_subscriber": 0,
+         "sys_publishes_while_a_subscriber_is_suspended": 0, "p2p_publishes_202": 0, "p2p_publishes_403_read_only": 0,
+         "p2p_publishes_403_other": 0, "p2p_publishes_409": 0}
+    for sc in scns:
+        px = pv = None
+        for k, b in enumerate(impl.get(sc.id, [])):
+            v = statelib.View(b)
+            x = X(v)
+            fault, kind, args = sc.ops[k]
+            if px is not None and kind == "suspend" and fault[0] != "C":
+                u = int(args[0])
+                if (u in x.susp) != (u in px.susp):
+                    c["suspensions_changing_state"] += 1
+                    if pv.loaded and pv.cache.get("owner") == u:
+                        c["of_owner_of_loaded_group"] += 1
+                    elif pv.loaded and u in pv.cusers:
+                        c["of_plain_member_of_loaded_group"] += 1
+                    for p in px.p2p.values():
+                        if p["loaded"]:
+                            c["of_party_of_loaded_p2p" if u in p["users"] else "of_non_party_with_loaded_p2p"] += 1
+                    if u in px.syssubs:
+                        c["of_sys_subscriber"] += 1
+            if px is not None and kind == "pubsys" and px.syssubs & px.susp:
+                c["sys_publishes_while_a_subscriber_is_suspended"] += 1
+            if px is not None and kind == "p2ppub":
+                mine = [t for s, t in v.frames if s == args[0] and t.startswith("ctrl ")]
+                code = mine[0].split()[1] if mine else "-"
+                p = px.p2p.get(args[1])
+                if code == "202":
+                    c["p2p_publishes_202"] += 1
+                elif code == "403":
+                    c["p2p_publishes_403_read_only" if p and p["ro"] else "p2p_publishes_403_other"] += 1
+                elif code == "409":
+                    c["p2p_publishes_409"] += 1
+            px, pv = x, v
+    return {"suspension_cases_visited": c}
 
 
 def line_f(kind, l):
@@ -464,9 +714,11 @@ def run(ctx):
         ctx, [("msg", 0.0, 0.17), ("perm", 0.0, 0.17), ("perm", 0.1, 0.1), ("permfault", 0.0, 0.28), ("life", 0.0, 0.28)],
         lambda sc, views: monitor(sc, views, known_hit),
         dict(ops=set(PUB_KINDS), frame=frame_f, line=line_f, keys=("frames", "store", "cache")),
-        rule="seeded random histories over one group topic plus me/fnd/sys: authors = owner, members, muted, write-less (want or given without W), banned, removed, never subscribed; publishes preceded by subscribe/set-sub/del-sub/leave histories (arbitrary mode strings) with Fail k / Crash k at every adapter-call position of the permission requests, unload/restart; the owner's {del topic} held open inside store.Topics.Delete (memverif call hook) with publishes dispatched meanwhile; suspension/resumption of the owner; publishes to me/fnd (attached or not) and sys (never attached); non-trivial = at least one accepted mutating request",
-        trusted=["projection compared for C03: every frame of a publish request (group topic, me, fnd, sys), the stored rows and the cached modes/lastID after every request, the paused/read-only bits of the loaded topic, the suspended accounts, me/fnd attachments, seqid/lastID/messages of sys",
+        rule="seeded random histories over one group topic plus me/fnd/sys: authors = owner, members, muted, write-less (want or given without W), banned, removed, never subscribed; publishes preceded by subscribe/set-sub/del-sub/leave histories (arbitrary mode strings) with Fail k / Crash k at every adapter-call position of the permission requests, unload/restart; the owner's {del topic} held open inside store.Topics.Delete (memverif call hook) with publishes dispatched meanwhile; suspension/resumption (with Fail/Crash on its store calls) of accounts that are at once a plain member of the group topic, a party of one or two real peer-to-peer topics (assorted modes, with and without W) and a subscriber of sys, or the owner, or a bystander, followed by publishes to the group topic, the p2p topics and sys; reloads after a suspension, both parties suspended and one resumed; publishes to me/fnd (attached or not) and sys (never attached; with and without subscribers); non-trivial = at least one accepted mutating request",
+        trusted=["projection compared for C03: every frame of a publish request (group topic, me, fnd, sys), the stored rows and the cached modes/lastID after every request, the paused/read-only bits of the loaded group topic, of every p2p topic, of sys and of every loaded me/fnd topic, cached modes / attached sessions / seqid / lastID / messages of every p2p topic, the suspended accounts, me/fnd attachments, seqid/lastID/messages/subscribers of sys",
+                 "read-only-follows-suspension takes the account states from the users table and the membership from the topic's cached perUser before the request; the read-only bit itself is read from Topic.status at quiescence",
+                 "p2p topics are created with both subscription rows by store.Topics.CreateP2P at set-up (initTopicP2P case 4); the subscribers of sys are rows created at set-up followed by a reload of sys; both are removed / unloaded at the end of the scenario",
                  "the monitor takes the STORED subscription row as the definition of 'currently subscribed with W in both modes'; a failure of the iff is filed under a known finding only if the author's cached mode differs from the stored one AND one of the two named triggers hit that user since the topic was loaded (not-attached {set sub} of his own; faulted ownership-transfer request)",
                  "harness/overlay/server/zz_verif_c03x_test.go: the {del topic} of the owner is held inside adapter.TopicDelete by a memverif call hook (db/memverif/zz_hook.go) while publishes are dispatched and awaited; {acc status=susp} is sent by a root session; the driver's sessions are not in the session store, so suspension does not evict them (eviction on suspension and login refusal are C11's)",
                  "topic deletion is modelled for hub.topicUnreg case 1.1.1 only (owner, topic loaded, hard); other {del topic} requests are not issued"],
-        counts={"quick": 560, "thorough": 5000})
+        counts={"quick": 560, "thorough": 5000}, extra_cov=extra_cov)
